@@ -366,7 +366,9 @@ def oracle(case, obs):
         if len(v) != n * m:
             return "grid has the wrong number of pieces"
         exact = pow2(n) and pow2(m)
-        t = tiles_exact(v, r, F(0) if exact else F(1, 2 ** 44))
+        scale = abs(core.frac(r["cx"])) + abs(core.frac(r["cy"])) + core.frac(r["w"]) + core.frac(r["h"])
+        # non power-of-two grids: w/ncols and the cell centres are rounded (a few ulp at the rectangle's magnitude)
+        t = tiles_exact(v, r, F(0) if exact else scale * F(64, 2 ** 53))
         if t:
             return "grid: " + t
         if not all(attrs_ok(r, p) for p in v):
